@@ -67,6 +67,13 @@ static bool any_fault_fired(int idx) {
   for (auto &f : K->faults) if (f.fired && f.op == idx) return true;
   return false;
 }
+// ... other than an interrupted poll: an interruption (after whatever delay) neither sends nor suppresses anything and
+// consumes only time the caller spent parked, so every timing rule of a sequence stays in force whether the library gives
+// up with EINTR or carries on with the time that is left
+static bool hard_fault_fired(int idx) {
+  for (auto &f : K->faults) if (f.fired && f.op == idx && !(f.kind == K_poll && f.err == EINTR)) return true;
+  return false;
+}
 
 // multi-thread plans: life-cycle ops (new/start/destroy) issued earlier in the plan by another thread on the
 // same handle must have completed before this op may touch the handle
@@ -417,7 +424,7 @@ void Runner::exec_op(Thread *t, int idx) {
         check_stop_model(t, idx, h->stop, tmp, *h, st0, t0, "C15");
         if (all_noop) {
           if (c->st != Proc::REAPED)
-            viol("C15", "default-policy-abandoned-child", fmt("child=%s", c->st == Proc::RUNNING ? "running" : "unreaped"),
+            viol("C15", "default-policy-abandoned-child", fmt("child=%s", c->st == Proc::RUNNING ? "running" : "unreaped") + (any_fault_fired(idx) ? "/" + fault_tag(idx) : std::string()),
                  "destroy with the default stop policy returned while the child was still running or unreaped", idx);
           for (auto &s : c->sigs) {
             if (s.from_op != idx) continue;
@@ -438,6 +445,7 @@ void Runner::exec_op(Thread *t, int idx) {
       }
       if (c && c->st == Proc::ZOMBIE && h->status_known)
         viol("C01", "zombie-after-status", "", "a status was returned for this child but it is still a zombie at destroy", idx);
+      check_child_streams((size_t) op.h);
       *h = HState();
       return;
     }
@@ -578,7 +586,7 @@ void Runner::check_stop_model(Thread *t, int idx, const int stop_in[6], OpRes &r
   for (auto &s : c->sigs) if (s.from_op == idx) sent.push_back(s);
   std::string triple = fmt("%d,%d,%d", stop[0], stop[2], stop[4]);
   // errors injected into the op end the sequence early with that error
-  bool faulted = any_fault_fired(idx);
+  bool faulted = hard_fault_fired(idx), interrupted = any_fault_fired(idx) && !faulted;
   const int64_t J = (res.t1_ns - t0) - res.parked_ns + 1000000;  // drawn jitter inside the op + 1 ms rounding
   const int64_t X = c->dying_ns;  // -1: alive
   int64_t lo = t0, hi = t0 + J;
@@ -595,6 +603,7 @@ void Runner::check_stop_model(Thread *t, int idx, const int stop_in[6], OpRes &r
       int sig = act == C.S_TERMINATE ? SIGTERM : SIGKILL;
       if (si >= sent.size()) {
         if (faulted) return;  // the signalling call itself was made to fail
+        if (interrupted && (!ret_known || v == -EINTR)) return;  // gave up at the interrupted wait: nothing further is sent
         viol(prop, "stop-action-skipped", fmt("actions=%s/step=%d", triple.c_str(), i + 1),
              fmt("step %d should send signal %d but no signal was sent", i + 1, sig), idx);
         return;
@@ -640,8 +649,12 @@ void Runner::check_stop_model(Thread *t, int idx, const int stop_in[6], OpRes &r
     viol(prop, "stop-extra-signal", fmt("actions=%s", triple.c_str()), fmt("signal %d was sent although the sequence should have ended before that step", sent[si].sig), idx);
     return;
   }
+  // the sequence as a whole may not outlast its last wait (an interrupted wait restarted with its full timeout would)
+  if (!ended && waits_expired > 0 && !faulted && res.t1_ns > hi + 2000000 + J)
+    viol(prop, "stop-step-late", fmt("actions=%s/step=end", triple.c_str()),
+         fmt("the sequence returned at %.3f ms although its last wait expired at %.3f ms at the latest", (double) res.t1_ns / 1e6, (double) hi / 1e6), idx);
   if (!ret_known) return;
-  if (faulted && v < 0 && injected_in_op(idx, v)) return;
+  if ((faulted || interrupted) && v < 0 && injected_in_op(idx, v)) return;
   if (ended && want_status) {
     if (v < 0 && !(ambiguous_end && v == C.ETIMEDOUT_))
       viol(prop, "stop-missed-exit", fmt("actions=%s", triple.c_str()), fmt("the child exited during the sequence but stop returned %s", errname(v).c_str()), idx);
